@@ -114,6 +114,9 @@ func (p *c09Prop) Gen(r *Rng, i int, tier string) interface{} {
 		if i%16 == 15 {
 			return &c09Case{Kind: "gated", Gated: "cleanup-vs-retain"}
 		}
+		if i%32 == 7 {
+			return &c09Case{Kind: "gated", Gated: "resub-vs-publish"}
+		}
 		return &c09Case{Kind: "gated", Gated: "cleanup-vs-insert"}
 	}
 	c := &c09Case{Kind: "rounds"}
@@ -177,7 +180,7 @@ type hashGate struct {
 
 func (s *hashGate) Hash() uintptr {
 	n := atomic.AddInt32(&s.calls, 1)
-	if s.gateAt != 0 && n == s.gateAt {
+	if g := atomic.LoadInt32(&s.gateAt); g != 0 && n == g {
 		close(s.reached)
 		<-s.release
 	}
@@ -423,6 +426,18 @@ func (p *c09Prop) gatedRounds(kind string) []c09Round {
 			{Ops: []c01Op{{Op: "sub", F: "p/r", S: 3, QoS: 0, RH: 2}}, Probes: []string{"p/r", "p/q"}},
 			{Ops: []c01Op{{Op: "unsub", F: "p/q", S: 1}, {Op: "unsub", F: "p/q", S: 2}}, Probes: []string{"p/r", "p/q"}},
 		}
+	case "resub-vs-publish":
+		// s1 holds p/q and subscribes to it AGAIN; if that takes more than one step (more than one Hash() call), it
+		// is held in the middle while a publish to p/q is routed: s1 is subscribed all the time and must receive it
+		// (tried with the hold at the 2nd, 3rd and 4th Hash() call of the repeated SUBSCRIBE, one subscriber and topic each)
+		var rs []c09Round
+		for k := 2; k <= 4; k++ {
+			f := fmt.Sprintf("p/h%d", k)
+			rs = append(rs,
+				c09Round{Ops: []c01Op{{Op: "sub", F: f, S: k - 1, QoS: 0, RH: 2}}},
+				c09Round{Ops: []c01Op{{Op: "sub", F: f, S: k - 1, QoS: 1, RH: 2}}, Pubs: []string{f}, Probes: []string{f}})
+		}
+		return rs
 	case "cleanup-vs-retain":
 		// UnSubscribe(s1, p/q) is held in OnCleanUnsubscribe (q marked, not yet unlinked); a retained publish to
 		// p/q arrives; s1 is released. The retained message must be there afterwards.
@@ -523,6 +538,38 @@ func (p *c09Prop) runGated(c *c09Case) interface{} {
 			return obs
 		}
 		obs.Rounds = append(obs.Rounds, ro(probe("p/r"), probe("p/q")))
+	case "resub-vs-publish":
+		for k := 2; k <= 4; k++ {
+			f := fmt.Sprintf("p/h%d", k)
+			s1 := mk(k-1, 0)
+			_ = e.prov.Subscribe(subReq(f, s1, 0))
+			obs.Rounds = append(obs.Rounds, ro())
+			// hold the k-th Hash() call of the repeated SUBSCRIBE, if there is one
+			atomic.StoreInt32(&s1.gateAt, atomic.LoadInt32(&s1.calls)+int32(k))
+			acked := make(chan struct{})
+			go func() { _ = e.prov.Subscribe(subReq(f, s1, 1)); close(acked) }()
+			select {
+			case <-s1.reached:
+			case <-acked:
+			case <-time.After(2 * time.Second):
+			}
+			tg := e.publish(f)
+			if !e.pubBarrier() {
+				obs.Err = "publish barrier"
+				return obs
+			}
+			during := e.receivers(tg)
+			select {
+			case <-s1.reached:
+				close(s1.release)
+			default:
+				atomic.StoreInt32(&s1.gateAt, 0)
+			}
+			if !wait(acked, "the repeated subscribe was not acknowledged") {
+				return obs
+			}
+			obs.Rounds = append(obs.Rounds, c09RoundObs{Pubs: [][]int{during}, Probes: [][]int{probe(f)}, RetQ: [][]int{}})
+		}
 	case "cleanup-vs-retain":
 		cleanGate, cleanReached = make(chan struct{}), make(chan struct{})
 		s1 := mk(1, 0)
